@@ -26,9 +26,11 @@ ID = 'C01'
 HARNESS_BIN = 'c01'
 RUN_MODULE = 'Run.C01'
 REPO_BINS = ['sccache']
-THEOREMS = ['C01_table_wf', 'C01_no_argument_lost', 'C01_every_argument_placed', 'C01_listed_words_multiset',
+THEOREMS = ['C01_table_wf', 'C01_no_argument_lost', 'C01_parse_total', 'C01_every_argument_placed', 'C01_listed_words_multiset',
             'C01_dep_targets_kept', 'C01_every_result_affecting_arg_is_hashed', 'C01_class_side_conditions',
-            'C01_dep_target_without_md_dropped', 'C01_x_rs_dropped', 'C01_resynthesis_fixpoint_refuted']
+            'C01_dep_target_without_md_dropped', 'C01_x_rs_dropped', 'C01_resynthesis_fixpoint_refuted',
+            'C01_resynthesis_fixpoint_partial', 'C01_hit_replays_stored', 'C01_failure_verbatim_never_stored',
+            'C01_noncacheable_passthrough']
 ASSUMPTIONS = [
     'PARTIAL: gcc and clang are not modelled.  The theorems are about sccache\'s own classification (no argument lost, '
     'everything not explicitly exempt is hashed, table search well-formed); that the classification is right about the '
@@ -80,7 +82,7 @@ VALUES = [b'foo', b'bar.h', b'inc', b'pdir', b'gnu99', b'c++17', b'c', b'c++', b
           b'x86_64', b'arm64', b'@rsp1', b'-weird', b'', b'a=b', b'always', b'never', b'auto', b'FOO=1',
           b'-MD,-MF,x.d', b'cu', b'cuda', b'rs', b'hip', b'c-header', b'c++-header', b'objective-c', b'objective-c++',
           b'out.o', b'd/out.o', b'x.dia', b'dep.d', b'tgt', b'/nonexistent/p', b'libcc1plugin', b'gnu++2a', b'@x',
-          b'-', b'--', b'plug.so', b'foo.c']
+          b'-', b'--', b'plug.so', b'foo.c', b'inc\xe9', b'\xff\xfe', b'caf\xc3\xa9']
 UNKNOWN = [b'-O2', b'-Wall', b'-fPIC', b'-g', b'-S', b'-v', b'--verbose', b'-Wl,x', b'-march=native', b'-W', b'-Wp',
            b'-Wpe', b'-Wpedanti', b'-Wpedantic2', b'-fplugin=x.so', b'-include-pch', b'-g3', b'-pthread', b'-m64',
            b'-std', b'-stdlib', b'-fdiagnostics-color', b'-fno-diagnostics-colo', b'-MDX', b'-M2', b'-ffoo', b'-C',
